@@ -75,6 +75,10 @@ def isfinite_s(s):
 
 def qlit(x):
     x = Fraction(x)
+    d = x.denominator
+    if d > 1 and d & (d - 1) == 0:
+        # dyadic (every float64): mantissa and binary exponent, see Corr/Compare.dy
+        return "(dy (%d) %d)" % (x.numerator, d.bit_length() - 1)
     if x.numerator < 0:
         return "(Qmake (%d) %d)" % (x.numerator, x.denominator)
     return "(Qmake %d %d)" % (x.numerator, x.denominator)
